@@ -158,41 +158,73 @@ def check_pop_site(ctx, repo, fi, call, discard):
                        f"{fi.qual}: mark() not guarded by head is not None", loc(fi, m.ast))
 
 
+def queue_model(ctx, repo, rule):
+    """The peekable queue by interpretation (witness scenarios): an AsyncPeekableQueue built by its constructor over a
+    model FIFO; datagrams are (data, sender) tuples, and a retransmission is an EQUAL but distinct tuple.
+    head = oldest element / None when empty; pop removes exactly the head; a mark says 'the datagram I marked is
+    still at the head': it does not survive the removal of that datagram - neither onto an empty queue nor onto an
+    equal datagram that follows."""
+    from ..absint import ClassRef, Interp, Native, Obj, PyRaise, Undecided
+    cls = repo.cls(QUEUE_CLS)
+
+    def run(script):
+        interp = Interp(repo, max_depth=8)
+        try:
+            q = interp.apply(ClassRef(cls), [], {})
+        except (PyRaise, Undecided) as e:
+            raise AnalysisError(f"{QUEUE_CLS}() cannot be constructed by interpretation: {e}")
+        fifo = []
+        q.attrs.setdefault("_queue", fifo)
+        fifo = q.attrs["_queue"] if isinstance(q.attrs["_queue"], list) else fifo
+        q.attrs["_queue"] = fifo
+        q.attrs["qsize"] = Native(lambda a, k: len(fifo), "qsize")
+        q.attrs["empty"] = Native(lambda a, k: not fifo, "empty")
+        q.attrs["get_nowait"] = Native(lambda a, k: fifo.pop(0), "get_nowait")
+        q.attrs["put_nowait"] = Native(lambda a, k: fifo.append(a[0]), "put_nowait")
+        out = []
+        for op, arg in script:
+            try:
+                interp.steps = 0
+                if op == "put":
+                    fifo.append(arg)
+                elif op in ("pop", "mark"):
+                    interp.call(repo.method(QUEUE_CLS, op), q, [])
+                elif op == "head":
+                    out.append(("head", interp.getattr(q, "head")))
+                elif op == "is_marked":
+                    out.append(("is_marked", bool(interp.getattr(q, "is_marked"))))
+            except PyRaise as e:
+                out.append((op, f"raises {e.what}"))
+            except Undecided as e:
+                raise AnalysisError(f"{QUEUE_CLS}.{op}: cannot interpret: {e}")
+        return out
+
+    X = (b"<PACKT>one</PACKT>", ("10.0.0.5", 10022))
+    X2 = (bytes(bytearray(X[0])), ("10.0.0.5", 10022))  # equal to X, another object
+    Y = (b"<PACKT>two</PACKT>", ("10.0.0.5", 10022))
+    cases = [
+        ("head::oldest-or-none", [("head", None), ("put", X), ("put", Y), ("head", None), ("pop", None), ("head", None), ("pop", None), ("head", None)],
+         [("head", None), ("head", X), ("head", Y), ("head", None)], "head is not the oldest queued datagram / None on an empty queue, or pop does not remove exactly the head"),
+        ("mark::marks-the-head", [("put", X), ("is_marked", None), ("mark", None), ("is_marked", None)], [("is_marked", False), ("is_marked", True)],
+         "mark() does not mark the head (or a fresh queue is marked)"),
+        ("mark::cleared-when-marked-datagram-leaves", [("put", X), ("put", Y), ("mark", None), ("pop", None), ("is_marked", None)], [("is_marked", False)],
+         "after the marked datagram was taken by its consumer the NEXT datagram counts as marked: the discard consumer drops it unseen"),
+        ("mark::not-carried-onto-an-empty-queue", [("put", X), ("mark", None), ("pop", None), ("is_marked", None)], [("is_marked", False)],
+         "the mark survives on an empty queue after the marked datagram was taken (the discard consumer then unpacks head None and dies)"),
+        ("mark::not-carried-onto-an-equal-datagram", [("put", X), ("mark", None), ("pop", None), ("put", X2), ("is_marked", None)], [("is_marked", False)],
+         "a retransmitted (byte-identical) datagram arriving after the marked one was consumed counts as marked: it is discarded without reaching its handler (no acknowledgement)"),
+    ]
+    for key, script, want, what in cases:
+        got = run(script)
+        ctx.ob(rule, f"{QUEUE_CLS}::{key}", got == want, f"{what}: observed {got}, expected {want}", repo.method(QUEUE_CLS, "pop").loc,
+               sample={"rule": rule, "scenario": key, "observed": [str(x) for x in got]})
+    pop = repo.method(QUEUE_CLS, "pop")
+    ctx.ob(rule, f"{QUEUE_CLS}.pop::sync", not pop.is_async and not any(n.suspends for n in cfg_of(pop).nodes), f"{QUEUE_CLS}.pop suspends", pop.loc)
+
+
 def check_queue_class(ctx, repo):
     c = repo.cls(QUEUE_CLS)
-    pop = repo.own_method(QUEUE_CLS, "pop")
-    g = cfg_of(pop)
-    clears = [n for n in g.stmt_nodes() if isinstance(n.ast, ast.Assign)
-              and any(isinstance(t, ast.Attribute) and t.attr == "_marked" for t in n.ast.targets)
-              and isinstance(n.ast.value, ast.Constant) and n.ast.value.value is False]
-    removes = [n for n, c2 in g.nodes_calling("get_nowait")]
-    ctx.ob("R3", "AsyncPeekableQueue.pop::removes-head", bool(removes) and all(g.pdom(r, g.entry) for r in removes[:1]),
-           "AsyncPeekableQueue.pop does not remove the head on every normal path", pop.loc)
-    ctx.ob("R3", "AsyncPeekableQueue.pop::clears-mark", bool(clears) and any(g.pdom(cn, g.entry) for cn in clears),
-           "AsyncPeekableQueue.pop does not clear the mark on every normal path (a stale mark lets the discard consumer drop the *next* datagram unseen)",
-           pop.loc)
-    ctx.ob("R3", "AsyncPeekableQueue.pop::sync", not pop.is_async and not any(n.suspends for n in g.nodes),
-           "AsyncPeekableQueue.pop suspends", pop.loc)
-    mark = repo.own_method(QUEUE_CLS, "mark")
-    sets = [n for n in ast.walk(mark.node) if isinstance(n, ast.Assign) and isinstance(n.value, ast.Constant) and n.value.value is True
-            and any(isinstance(t, ast.Attribute) and t.attr == "_marked" for t in n.targets)]
-    ctx.ob("R3", "AsyncPeekableQueue.mark::sets", bool(sets), "mark() does not set the mark", mark.loc)
-    im = repo.own_method(QUEUE_CLS, "is_marked")
-    rets = [n for n in ast.walk(im.node) if isinstance(n, ast.Return)]
-    ctx.ob("R3", "AsyncPeekableQueue.is_marked::reads", len(rets) == 1 and ast.unparse(rets[0].value) == "self._marked",
-           "is_marked does not return the mark", im.loc)
-    # head is the oldest element: index 0 of the FIFO deque, None when empty
-    head = repo.own_method(QUEUE_CLS, "head")
-    hg = cfg_of(head)
-    ok = False
-    for n in hg.stmt_nodes():
-        if isinstance(n.ast, ast.Return) and isinstance(n.ast.value, ast.Subscript):
-            idx = repo.try_fold(n.ast.value.slice)
-            if idx == 0 and ast.unparse(n.ast.value.value) == "self._queue":
-                facts = hg.guard_atoms(n)
-                if any("qsize()" in t for t, p in facts):
-                    ok = True
-    ctx.ob("R2", "AsyncPeekableQueue.head::oldest", ok, "head does not return self._queue[0] guarded by a size test", head.loc)
+    queue_model(ctx, repo, "R3")
     # the mark flag has no other writer in the package
     writers = []
     for fi in repo.all_functions():
